@@ -214,6 +214,14 @@ func (s *site) check(r *ev.Run, t *tally, method string, chain []blob.Ref, assem
 			t.note("expiry_judged", cls+"/unexpired")
 		}
 	}
+	if shape := w.delShape[chain[0]]; shape != "" {
+		switch {
+		case v.reason == "deleted":
+			t.note("deletion_forest_judged", shape+"/refused/"+s.mode)
+		case !mustRefuse:
+			t.note("deletion_forest_judged", shape+"/served/"+s.mode)
+		}
+	}
 	if mustRefuse {
 		t.note("refusal_reasons_exercised", reason)
 	} else {
@@ -319,6 +327,9 @@ func (s *site) exhaustive(r *ev.Run, method string, c0 int, distinct bool) {
 	maxLen := w.maxLen
 	if maxLen == 0 {
 		maxLen = 4
+	}
+	if w.shallowNonShares && !isShare && maxLen > 2 {
+		maxLen = 2
 	}
 	one()
 	for _, a := range refs {
@@ -480,6 +491,11 @@ func mount(r *ev.Run, w *world, shuffle bool, orng *rand.Rand) (sites []*site, d
 	}
 	for _, k := range order {
 		if err := live.Deliver(w.blobs[k]); err != nil {
+			if w.forged[w.blobs[k].Ref] {
+				// the index refuses a claim whose signature does not verify; the blob itself is stored
+				r.Note("forged_claims", "index-refused-the-blob")
+				continue
+			}
 			r.Inconclusive(fmt.Sprintf("store %s: deliver %s: %v", id, w.label(w.blobs[k].Ref), err))
 			return nil, "", false
 		}
@@ -562,6 +578,12 @@ func part1(r *ev.Run) {
 	}
 	worlds = append(worlds, expWorlds...)
 	sites = append(sites, expSites...)
+	mdWorlds, mdSites, ok := multiDelStores(r)
+	if !ok {
+		return
+	}
+	worlds = append(worlds, mdWorlds...)
+	sites = append(sites, mdSites...)
 	r.Extra("part1_stores", len(worlds))
 	// jobs
 	type job func()
@@ -577,6 +599,10 @@ func part1(r *ev.Run) {
 		}
 		srng := r.Rand("samples/" + s.w.id + "/" + s.mode)
 		jobs = append(jobs, func() { s.samples(r, srng) })
+		if s.w.maxLen == 0 {
+			frng := r.Rand("forms/" + s.w.id + "/" + s.mode)
+			jobs = append(jobs, func() { s.forms(r, frng) })
+		}
 	}
 	ch := make(chan job, len(jobs))
 	for _, j := range jobs {
@@ -607,12 +633,14 @@ func part1(r *ev.Run) {
 	r.Require("reachable_shapes", "the-share-claim-itself", "share-target", "target-plus-1-links", "target-plus-2-links")
 	r.Require("refusal_reasons_exercised", "no-share/missing", "no-share/not-a-share-claim", "authtype", "deleted", "expired", "not-target", "search-share",
 		"nontransitive", "missing-via", "missing-target", "nolink", "assemble-nontransitive",
-		"decoy/file", "decoy/bytes", "decoy/static-set", "decoy/claim", "decoy/symlink", "decoy/non-schema")
+		"decoy/file", "decoy/bytes", "decoy/static-set", "decoy/claim", "decoy/symlink", "decoy/non-schema", "decoy/directory")
 	r.Require("store_features", "share-transitive", "share-nontransitive", "share-expired-1990", "share-expires-2200", "share-no-expiry",
 		"share-deleted", "share-deleted-then-undeleted", "share-foreign-authtype", "share-search", "nested-bytes", "static-set-mergeSets",
-		"static-set-plain", "permanode", "decoys")
+		"static-set-plain", "permanode", "decoys", "decoy-share-claim-as-via")
 	r.Require("delivery", "dependency-order", "shuffled")
 	requireExpiry(r)
+	requireMultiDel(r)
+	requireForms(r)
 	if r.Thorough() {
 		r.Require("store_features", "share-deleted-twice-one-undone", "share-T-claim", "share-T-permanode")
 	}
